@@ -123,6 +123,41 @@ class Stats:
                 self.samples_tr.append(s)
 
 
+def pkg_exception_clause(exc):
+    """If the exception escaped from package code (a superrec2 frame lies
+    deeper in the traceback than the last harness frame) return the clause
+    'exception.<Type>@<file>:<function>', else None (harness error)."""
+    frames = traceback.extract_tb(exc.__traceback__)
+    last_harness = -1
+    last_pkg = -1
+    where = None
+    for i, fs in enumerate(frames):
+        fn = fs.filename.replace("\\", "/")
+        if "/superrec2/" in fn:
+            last_pkg = i
+            where = f"{os.path.basename(fn)}:{fs.name}"
+        elif fn.startswith(ROOT):
+            last_harness = i
+    if last_pkg > last_harness:
+        return f"exception.{type(exc).__name__}@{where}"
+    return None
+
+
+def run_check(mod, case):
+    """mod.check(case) with package exceptions turned into violations."""
+    try:
+        return mod.check(case)
+    except (Violation, Skip, HarnessError):
+        raise
+    except RecursionError:
+        raise
+    except Exception as exc:
+        clause = pkg_exception_clause(exc)
+        if clause is None:
+            raise
+        raise Violation(clause, observed=repr(exc)[:300], expected="no exception on a well-formed input") from None
+
+
 def load(prop_id):
     return importlib.import_module(f"harness.props.{prop_id.lower()}")
 
@@ -167,7 +202,7 @@ def shard_worker(args):
                 stats.timeouts += 1
                 return
             try:
-                res = mod.check(case)
+                res = run_check(mod, case)
             except Skip as s:
                 stats.excluded[s.reason] += 1
                 return
@@ -185,7 +220,7 @@ def shard_worker(args):
                 raise
             # flaky: keep the failure only if it reproduces on a plain re-run
             try:
-                mod.check(state["fail"]["case"])
+                run_check(mod, state["fail"]["case"])
                 return {"error": "flaky failure did not reproduce: " + traceback.format_exc()}
             except Violation:
                 pass
@@ -205,7 +240,7 @@ def job_worker(args):
                 stats.timeouts += 1
                 break
             try:
-                res = mod.check(case)
+                res = run_check(mod, case)
             except Skip as s:
                 stats.excluded[s.reason] += 1
                 continue
@@ -266,7 +301,7 @@ def run_property(prop_id, tier, seed):
             case = rep["case"]
             n_replays += 1
             try:
-                res = mod.check(case)
+                res = run_check(mod, case)
                 stats.record(case, res)
                 failed = None
             except Skip:
@@ -424,7 +459,7 @@ def replay(prop_id, path):
     mod = load(prop_id)
     rep = load_replay(path)
     try:
-        mod.check(rep["case"])
+        run_check(mod, rep["case"])
     except Skip as s:
         print(f"SKIP {s.reason}")
         return 0
